@@ -11,6 +11,7 @@ import (
 	"os"
 	"path/filepath"
 	"strings"
+	"sync"
 	"testing"
 	"testing/synctest"
 	"time"
@@ -422,4 +423,120 @@ func TestVerifC12Queue(t *testing.T) {
 		Info: func(c c12Q) ev.Info {
 			return ev.Info{Nontrivial: true, Classes: []string{fmt.Sprintf("msgs=%d", len(c.Scenario.Msgs))}}
 		}})
+}
+
+// ---- max_parallelism at its boundary ---------------------------------------------------------------------
+
+type c12pCase struct {
+	Parallelism int `json:"max_parallelism"`
+	Msgs        int `json:"messages"`
+}
+
+type c12pTarget struct {
+	mu   sync.Mutex
+	seen int
+}
+
+func (t *c12pTarget) Start(ctx context.Context, meta *module.MsgMetadata, from string) (module.Delivery, error) {
+	return c12pDelivery{t}, nil
+}
+
+type c12pDelivery struct{ t *c12pTarget }
+
+func (d c12pDelivery) AddRcpt(ctx context.Context, to string, _ smtp.RcptOptions) error { return nil }
+func (d c12pDelivery) Body(ctx context.Context, h textproto.Header, b buffer.Buffer) error {
+	return nil
+}
+func (d c12pDelivery) Abort(ctx context.Context) error { return nil }
+func (d c12pDelivery) Commit(ctx context.Context) error {
+	d.t.mu.Lock()
+	d.t.seen++
+	d.t.mu.Unlock()
+	return nil
+}
+
+// c12pRun: a queue started with the given max_parallelism either refuses to start or dispatches what is committed
+// to it and shuts down (real time, generous limits: a message is dispatched at once, Close has nothing to wait for).
+func c12pRun(sc c12pCase) (vs []ev.V) {
+	r := c12Rec
+	dir, err := os.MkdirTemp("", "c12par")
+	if err != nil {
+		r.HarnessError("%v", err)
+		return nil
+	}
+	defer os.RemoveAll(dir)
+	mod, _ := NewQueue("", "queue", nil, nil)
+	q := mod.(*Queue)
+	tgt := &c12pTarget{}
+	q.maxTries, q.location, q.hostname, q.autogenMsgDomain, q.Target = 3, dir, "mx.maddy.test", "maddy.test", tgt
+	q.Log = log.Logger{Out: log.NopOutput{}}
+	started := false
+	func() {
+		defer func() {
+			if p := recover(); p != nil {
+				vs = append(vs, ev.Vf("queue:start-panics", "max_parallelism %d: starting the queue panicked: %v", sc.Parallelism, p))
+			}
+		}()
+		if err := q.start(sc.Parallelism); err == nil {
+			started = true
+		}
+	}()
+	if !started {
+		return vs // refused (or crashed, reported above)
+	}
+	ctx := context.Background()
+	for i := 0; i < sc.Msgs; i++ {
+		d, err := q.Start(ctx, &module.MsgMetadata{ID: fmt.Sprintf("c12p%d", i), OriginalFrom: "s@example.com"}, "s@example.com")
+		if err != nil {
+			r.HarnessError("queue start: %v", err)
+			return nil
+		}
+		d.AddRcpt(ctx, "r@example.org", smtp.RcptOptions{})
+		hdr := textproto.Header{}
+		hdr.Add("Subject", "x")
+		if err := d.Body(ctx, hdr, buffer.MemoryBuffer{Slice: []byte("x\r\n")}); err != nil {
+			r.HarnessError("queue body: %v", err)
+			return nil
+		}
+		if err := d.Commit(ctx); err != nil {
+			r.HarnessError("queue commit: %v", err)
+			return nil
+		}
+	}
+	deadline := time.Now().Add(10 * time.Second)
+	for time.Now().Before(deadline) {
+		tgt.mu.Lock()
+		n := tgt.seen
+		tgt.mu.Unlock()
+		if n >= sc.Msgs {
+			break
+		}
+		time.Sleep(5 * time.Millisecond)
+	}
+	tgt.mu.Lock()
+	seen := tgt.seen
+	tgt.mu.Unlock()
+	if seen < sc.Msgs {
+		vs = append(vs, ev.Vf("queue:committed-message-not-dispatched", "max_parallelism %d: %d messages were committed to the queue, %d were dispatched within 10 s (the target accepts everything at once)", sc.Parallelism, sc.Msgs, seen))
+	}
+	done := make(chan struct{})
+	go func() { q.Close(); close(done) }()
+	select {
+	case <-done:
+	case <-time.After(10 * time.Second):
+		vs = append(vs, ev.Vf("queue:close-does-not-return", "max_parallelism %d, %d messages committed, %d dispatched: Close did not return within 10 s", sc.Parallelism, sc.Msgs, seen))
+	}
+	return vs
+}
+
+func TestVerifC12Parallelism(t *testing.T) {
+	r := c12Rec
+	if r.Shard != 0 {
+		return // a handful of cases: one shard is enough
+	}
+	ev.Run(t, r, ev.Spec[c12pCase]{Name: "parallelism-boundary", N: 6, Gen: func(t *rapid.T) c12pCase {
+		return c12pCase{Parallelism: rapid.SampledFrom([]int{0, -1, 1, 1, 2}).Draw(t, "max_parallelism"), Msgs: rapid.IntRange(1, 3).Draw(t, "msgs")}
+	}, Run: c12pRun, Info: func(c c12pCase) ev.Info {
+		return ev.Info{Nontrivial: c.Parallelism <= 0, Classes: []string{fmt.Sprintf("max_parallelism=%d", c.Parallelism)}}
+	}})
 }
